@@ -2,6 +2,8 @@ package main
 
 import (
 	"context"
+	"io"
+	"net/http/httptest"
 	"encoding/json"
 	"fmt"
 	"log/slog"
@@ -23,9 +25,10 @@ import (
 func init() { register("C05", checkC05) }
 
 type ctPer struct {
-	L  int         `json:"l"`
-	En bool        `json:"en"`
-	Ce []ctCoreRef `json:"ce"`
+	L   int         `json:"l"`
+	En  bool        `json:"en"`
+	Ce  []ctCoreRef `json:"ce"`
+	Dec [][]int     `json:"dec"` // sampler nodes that take a decision for this level
 }
 type ctStep struct {
 	Al  int     `json:"al"`
@@ -78,7 +81,7 @@ func checkC05(c *Ctx) {
 		c.MustTLC(TLCOpts{Module: "CoreTree", Cfg: "CoreTree.check", Consts: m, ExpectViolation: true})
 	}
 	n := 0
-	variants := []string{"io", "obs", "mix"}
+	variants := []string{"io", "obs", "mix", "mix+hookerr"}
 	c.MustTLC(TLCOpts{Module: "CoreTree", Cfg: "CoreTree.check", Gen: true, Consts: ctConsts(c, true), OnBeh: func(raw json.RawMessage) {
 		if c.Saturated() {
 			return
@@ -92,7 +95,7 @@ func checkC05(c *Ctx) {
 		if n%5003 == 1 {
 			c.Sample(map[string]interface{}{"tree": b.Tree.String(), "steps": len(b.Steps), "al": b.Steps[0].Al, "lvl": b.Steps[0].Lvl})
 		}
-		v := variants[(n+int(c.Seed))%3]
+		v := variants[(n+int(c.Seed))%len(variants)]
 		for _, f := range replayC05(c, b, v) {
 			c.Violation(f.Key, f.What, map[string]interface{}{"beh": b, "variant": v})
 		}
@@ -186,7 +189,8 @@ func replayC05(c *Ctx, b ctBeh, leafKind string) (finds []Finding) {
 			add("C05/panic", "composition %s panicked: %v", b.Tree, r)
 		}
 	}()
-	w := ctBuild(b.Tree, zapcore.Level(b.Steps[0].Al), leafKind)
+	w := ctBuild(b.Tree, zapcore.Level(b.Steps[0].Al), strings.TrimSuffix(leafKind, "+hookerr"))
+	w.hookErr = strings.HasSuffix(leafKind, "+hookerr")
 	if w.buildErr != nil {
 		// the spec's Constructible predicate mirrors NewIncreaseLevelCore; a refusal here means Enabled of a
 		// subtree differs from the model, which the Enabled comparison of that subtree reports on its own
@@ -196,7 +200,7 @@ func replayC05(c *Ctx, b ctBeh, leafKind string) (finds []Finding) {
 	}
 	desc := func(st ctStep) string { return fmt.Sprintf("%s with AtomicLevel=%d", b.Tree, st.Al) }
 	mk := func() *zap.Logger {
-		return zap.New(w.core, zap.WithFatalHook(zapcore.WriteThenPanic), zap.WithPanicHook(zapcore.WriteThenPanic))
+		return zap.New(w.core, zap.WithFatalHook(zapcore.WriteThenPanic), zap.WithPanicHook(zapcore.WriteThenPanic), zap.ErrorOutput(zapcore.AddSync(io.Discard)))
 	}
 	// loggers derived BEFORE any level change must honour later changes on their next call
 	root := mk()
@@ -211,7 +215,24 @@ func replayC05(c *Ctx, b ctBeh, leafKind string) (finds []Finding) {
 	lnames := []string{"root", "With", "WithLazy", "Named", "Sugar.With", "WithOptions"}
 	for si, st := range b.Steps {
 		if si > 0 {
-			w.atom.SetLevel(zapcore.Level(st.Al))
+			// the level is changed through every surface that changes a shared AtomicLevel in place
+			nl := zapcore.Level(st.Al)
+			how := (len(b.Tree.String()) + si + st.Al) % 3
+			switch {
+			case nl < zapcore.DebugLevel || nl > zapcore.FatalLevel || how == 0:
+				w.atom.SetLevel(nl)
+			case how == 1:
+				if err := w.atom.UnmarshalText([]byte(nl.String())); err != nil {
+					add("C05/panic", "AtomicLevel.UnmarshalText(%q): %v", nl.String(), err)
+				}
+			default:
+				req := httptest.NewRequest("PUT", "/", strings.NewReader(fmt.Sprintf(`{"level":%q}`, nl.String())))
+				rec := httptest.NewRecorder()
+				w.atom.ServeHTTP(rec, req)
+				if rec.Code != 200 {
+					w.atom.SetLevel(nl)
+				}
+			}
 		}
 		// reported minimum level
 		for _, ln := range lnames {
@@ -226,6 +247,10 @@ func replayC05(c *Ctx, b ctBeh, leafKind string) (finds []Finding) {
 		for _, per := range st.Per {
 			wantLeaves := map[string]int{}
 			wantHooks := map[string]int{}
+			wantDec := map[string]bool{}
+			for _, p := range per.Dec {
+				wantDec[pathKey(p)] = true
+			}
 			for _, r := range per.Ce {
 				if r.K == "leaf" {
 					wantLeaves[pathKey(r.P)]++
@@ -260,6 +285,9 @@ func replayC05(c *Ctx, b ctBeh, leafKind string) (finds []Finding) {
 					ctProtect(func() { fe.log(lg, w, l) })
 					what := fmt.Sprintf("%s: %s via %s at level %d", desc(st), fe.name, ln, l)
 					if k, msg := ctCompare(w, wantLeaves, wantHooks); k != "" {
+						add(k, "%s: %s", what, msg)
+					}
+					if k, msg := ctCompareDecisions(w, wantDec); k != "" {
 						add(k, "%s: %s", what, msg)
 					}
 				}
@@ -334,6 +362,26 @@ func ctCompare(w *ctWorld, wantLeaves, wantHooks map[string]int) (key, msg strin
 		}
 		if w.sinkOps != 0 {
 			return "C05/disabled-activity", fmt.Sprintf("a disabled entry caused %d sink operation(s)", w.sinkOps)
+		}
+	}
+	return "", ""
+}
+
+// ctCompareDecisions: a sampler decides (and calls its hook) exactly for entries its own core would take.
+func ctCompareDecisions(w *ctWorld, want map[string]bool) (key, msg string) {
+	w.mu.Lock()
+	defer w.mu.Unlock()
+	for k, ds := range w.sampHook {
+		if !want[k] && len(ds) > 0 {
+			return "C05/disabled-activity", fmt.Sprintf("sampler %s took %d sampling decision(s) for an entry its own core does not enable (budget consumed, decision hook called)", k, len(ds))
+		}
+		if len(ds) > 1 {
+			return "C05/hook-duplicate", fmt.Sprintf("sampler %s decided %d times for one entry", k, len(ds))
+		}
+	}
+	for k := range want {
+		if len(w.sampHook[k]) == 0 {
+			return "C05/hook-missing", fmt.Sprintf("sampler %s took no decision for an entry its core enables", k)
 		}
 	}
 	return "", ""
